@@ -330,7 +330,14 @@ func runReplayTest(eng *Engine, pkgPath, src, tmp string) (bool, string) {
 	b, _ := json.Marshal(ov)
 	os.WriteFile(ovf, b, 0o644)
 	rel, _ := filepath.Rel(root, dir)
-	cmd := exec.Command("go", "test", "-overlay", ovf, "-vet=off", "-count=1", "-v", "-timeout", "60s", "-run", "TestGovcReplay", "./"+rel)
+	args := []string{"test", "-overlay", ovf, "-vet=off", "-count=1", "-v", "-timeout", "60s", "-run", "TestGovcReplay", "./" + rel}
+	race := strings.Contains(src, "//govc:race")
+	if race {
+		// schedule-dependent violations (monitor obligations): the replay runs the real code
+		// under the race detector, whose report is the confirmation
+		args = append([]string{"test", "-race"}, args[1:]...)
+	}
+	cmd := exec.Command("go", args...)
 	cmd.Dir = root
 	cmd.Env = append(os.Environ(), "GOFLAGS=-mod=mod", "GOPROXY=off", "GOSUMDB=off", "GOTOOLCHAIN=local")
 	done := make(chan struct{})
@@ -345,5 +352,8 @@ func runReplayTest(eng *Engine, pkgPath, src, tmp string) (bool, string) {
 		return false, "replay timed out"
 	}
 	s := string(out)
+	if race && strings.Contains(s, "WARNING: DATA RACE") {
+		return true, "REPLAY-CONFIRMED by the race detector\n" + s
+	}
 	return strings.Contains(s, "REPLAY-CONFIRMED"), s
 }
